@@ -25,22 +25,22 @@ type pipeSeg struct {
 }
 
 type Pipe struct {
-	s          *Sched
-	ch         *Choices
-	segs       []pipeSeg
-	closed     bool
-	Written    int
-	HandedOut  int
-	maxDelay   int
-	cutP       int // percent: probability that a write is cut at a drawn offset (repeatedly)
-	shortP     int // percent: probability that a read is capped at a drawn size
-	zeroRead   bool
+	s           *Sched
+	ch          *Choices
+	segs        []pipeSeg
+	closed      bool
+	Written     int
+	HandedOut   int
+	maxDelay    int
+	cutP        int // percent: probability that a write is cut at a drawn offset (repeatedly)
+	shortP      int // percent: probability that a read is capped at a drawn size
+	zeroRead    bool
 	eofWithLast bool
-	rt         *Task // reader task (blocks through the scheduler)
+	rt          *Task // reader task (blocks through the scheduler)
 	// counters
 	Cuts, ShortReads, ReaderBlocks, MidRune, ZeroReads, EOFWithData int
-	reading    bool // the reader is inside a value read (for the "blocked mid-value" probe)
-	BlockedMid int
+	reading                                                         bool // the reader is inside a value read (for the "blocked mid-value" probe)
+	BlockedMid                                                      int
 }
 
 func (p *Pipe) Write(b []byte) (int, error) {
@@ -182,9 +182,9 @@ func (p *Pipe) readByte(b *byte) (int, error) {
 }
 
 const (
-	c06EncDec = iota // Encoder.WriteObject xN / Decoder.ReadObject xN
-	c06EncDecOneShotFirst // Encoder.WriteTo + WriteObject / Decoder.ReadFrom + ReadObject
-	c06Serializer // Serializer.WriteTo + Write / ReadFrom + Read
+	c06EncDec             = iota // Encoder.WriteObject xN / Decoder.ReadObject xN
+	c06EncDecOneShotFirst        // Encoder.WriteTo + WriteObject / Decoder.ReadFrom + ReadObject
+	c06Serializer                // Serializer.WriteTo + Write / ReadFrom + Read
 	nC06Entry
 )
 
